@@ -21,7 +21,13 @@ ArithFns == {"add", "sub", "mul", "div", "mod", "min"}
 
 A1 == {"a", "b", "A", "B", "i", "d", "I", "D", "ee", "EE", "zh", "1", "_", " ", "tab", "/", ".", "-", "xff"}
 UrlLetters == {"u", "r", "l", "U", "R", "L"}
-Singles(n) == One(SingleFns, StrsUpTo(A1, n)) \/ One({"exported"}, [1..3 -> UrlLetters])
+\* letters whose upper/lower case has another UTF-8 length (2->1, 2->3, 3->2, 3->1), with their images
+LenChange == {"dli", "ls", "tua", "TUA", "ast", "AST", "kel"}
+LC3 == LenChange \cup {"a", "A", "I", "k", "d", "xff"}
+Singles(n) == \/ One(SingleFns, StrsUpTo(A1, n)) \/ One({"exported"}, [1..3 -> UrlLetters])
+              \/ One(SingleFns, StrsUpTo(A1 \cup LenChange, 2))
+              \/ (n >= 3 /\ One(SingleFns, StrsUpTo(LC3, 3)))
+              \/ One({"exported", "firstUpper", "firstLower", "firstIsLower"}, {<<x, y, z>> : x \in LenChange, y \in {"d", "s", "ee"}, z \in {"h", "xff"}})
 
 Pairs(A, la, ls) == Two(PairFns, StrsUpTo(A, la), StrsUpTo(A, ls))
 
@@ -55,6 +61,7 @@ A3 == {"a", "ee", "xff"}
 CaseChoice ==
   CASE Tier = "quick" ->
          \/ Singles(2) \/ Pairs(A2q, 2, 2) \/ Pairs({"a", "ee"}, 1, 3) \/ Pairs({"a", "A"}, 1, 2)
+         \/ Pairs({"I", "dli", "kel", "k", "TUA"}, 1, 2)
          \/ SplitN(A3, 1, -2..2, 3) \/ Repl({"a", "ee"}, 1, -2..2, 3) \/ ReplAll({"a", "ee"}, 1, 3)
          \/ Joins({<<>>, <<"a">>, <<"ee">>})
          \/ Arith(-3..3) \/ Floats(-10..10)
@@ -62,11 +69,15 @@ CaseChoice ==
     [] Tier = "thorough" ->
          \/ Singles(3) \/ One(SingleFns, [1..4 -> {"a", "A", "ee", "_", "xff"}])
          \/ Pairs(A2t, 2, 3) \/ Pairs(A3, 3, 3) \/ Pairs({"a", "A", "EE"}, 2, 3)
+         \/ Pairs({"I", "dli", "kel", "k", "TUA", "tua"}, 2, 3)
          \/ SplitN(A2q, 2, -2..3, 3) \/ Repl({"a", "b", "ee"}, 2, -2..3, 3) \/ ReplAll({"a", "b", "ee"}, 2, 3)
          \/ Joins({<<>>, <<"a">>, <<"ee">>, <<"xff", "b">>})
          \/ Arith(-4..4) \/ Floats(-18..18)
          \/ (\E f \in ArithFns, xs \in [1..4 -> -2..2] : Is(f, [i \in 1..4 |-> I(xs[i])]))
          \/ Paths(4) \/ Metas(3) \/ Matches(3) \/ Envs(4) \/ Files \/ Rand
+    [] Tier = "witness2" ->
+         \* negated witness for the length-changing letters (seeded C16-r3m1 code shape)
+         One({"exported"}, StrsUpTo({"a", "dli", "tua", "ast", "ee"}, 2))
     [] Tier = "witness" ->
          \* negated witness: with the pre-d879be0 code shape TLC must find ImplMatchesContract violated
          \/ One({"exported"}, StrsUpTo({"a", "ee", "xff"}, 2))
